@@ -28,7 +28,8 @@ CHECKS = {
          "DESIGN.md 5/C02"),
  "C03": ("ingest", "model_checking",
          "Objects!TableWellFormed (row count, block sizes, strictly ascending keys, exact block indices, table index = first key per block, "
-         "doctor clean) is evaluated by TLC with B=255 on the projection of every real table stored by the producers: ~7,000 padded "
+         "doctor clean, and ReadersOK: the repository's own table reader / row-list reader return the stored rows in order and at block-boundary "
+         "offsets) is evaluated by TLC with B=255 on the projection of every real table stored by the producers: ~7,000 padded "
          "small-universe ingests and seeded real-scale ingests at boundary sizes 0,1,254..257,509..512,764..766 under run sizes, "
          "delimiters and 1..16 workers (TraceTable.tla); further producers (merge, receive, doctor) add observations as their engines run.",
          "hash function and string-list encoding of the repository are trusted for recomputing key/row hashes",
@@ -50,7 +51,9 @@ CHECKS = {
          "same for the differ -> mergeTables -> collector -> caller topology with its shared error channel; the pool model without the mutex "
          "must violate NoLoss (self-test). Real 1..16-worker ingests (GOMAXPROCS 1/2/4/16, seeded sleeps inside the hooks, injected store "
          "failures) are recorded through the verif hooks and validated by TLC against TracePool.tla; the diff scenario set is replayed under "
-         "seeded yields at every channel send; thorough adds race-detector runs.",
+         "seeded yields at every channel send; diff and merge scenarios are repeated with a read error injected at the k-th store read (once, "
+         "and sticky = an unreadable object): every run must end and a fault that fired must be reported or not matter; thorough adds "
+         "race-detector runs.",
          "real schedules are sampled, only the model's are exhaustive; worker ids / channel contents not logged",
          "TLA+ specs IngestPool.tla, Pipes.tla (TLC, all interleavings + liveness); TLC trace validation (TracePool.tla) of hook-recorded real executions",
          "DESIGN.md 5/C16"),
@@ -67,10 +70,12 @@ CHECKS = {
          "Merge.tla is the oracle: a cell-wise rule in which 'absent' is a value (row/column removal and addition are changes of cells), "
          "conflict = two different changes of one cell; TLC checks the statement's laws (merge(base;X,base)=X, merge(base;X,X)=X, order "
          "independence) over every ordered pair of branch versions (row ops x column ops add/remove/reorder/rename x key column at position "
-         "1..3: 16,928 quick / ~10^6 thorough pairs) and exports expected result, conflicting keys and the keys where the statement allows two "
-         "outcomes; every pair is realised as real tables (a sample cluster-scaled to multi-block tables), merged by the real pkg/merge as "
-         "`wrgl merge` drives it (rows path and the commit path storing the merged table) and result / conflicts / columns are compared.",
-         "the merge UI is not driven (conflicts are dropped and the rest judged); N=2 branches in the exhaustive universe",
+         "1..3: 21,632 quick (half per run) / ~10^6 thorough pairs (a third per run)) and exports expected result, conflicting keys and the keys "
+         "where the statement allows two outcomes; a reduced universe adds a THIRD branch (N-ary laws: order independence, a branch equal to "
+         "the base is neutral) and MergeKeylessGen enumerates tables without a primary key (oracle Merge!KeylessResult); every scenario is "
+         "realised as real tables (a sample cluster-scaled to multi-block tables), merged by the real pkg/merge as `wrgl merge` drives it "
+         "(rows path and the commit path storing the merged table) and result / conflicts / columns are compared.",
+         "the merge UI is not driven (conflicts are dropped and the rest judged); N=3 only in a reduced universe",
          "TLA+ spec Merge.tla (oracle + laws, TLC); TLC-enumerated branch pairs replayed into pkg/merge",
          "DESIGN.md 5/C05"),
  "C06": ("wire", "model_checking",
@@ -101,7 +106,9 @@ CHECKS = {
          "ahead / behind / diverged / unrelated x ref kinds x per-refspec and global force x ff / no-ff / ff-only and exports the expected refs; "
          "every scenario is run through the real `wrgl fetch` / `wrgl push` (against the reference server) / `wrgl merge`, refs compared, "
          "rejections must be reported, and TLC (TraceSync.tla) checks RefsForward and LogFaithful on the projected real before / after states "
-         "with ancestry computed by the specification.",
+         "with ancestry computed by the specification; System.tla behaviours (commit / reset / merge / branch / prune through the CLI) compare "
+         "the whole reflog of every branch after every command, and RemoteCfg.tla checks which refs a configured fetch would update (refspec "
+         "round trip, force / negate / tag / glob forms) after `wrgl remote` commands.",
          "the server is the harness's reference server (the real one is in another repository); real (non-ff) merges are C05's",
          "TLA+ spec Sync.tla (TLC); TLC-enumerated scenarios replayed through the real CLI; TLC trace validation (TraceSync.tla)",
          "DESIGN.md 5/C10"),
@@ -146,7 +153,10 @@ CHECKS = {
          "TLC explores the ref-store specification (Refs.tla) exhaustively over an alphabet of names with '_', '%', case variants "
          "and nested prefixes; every transition of the model's state graph is replayed on the real SQL ref store with return value "
          "and projected store compared (transition cover), and seeded real-scale operation traces recorded from the real store are "
-         "validated against the specification by TLC (TraceRefs.tla).",
+         "validated against the specification by TLC (TraceRefs.tla); the cover is replayed on the file ref store (pkg/ref/fs) as well, for the "
+         "operations it implements (RefsGen!FsStep decides); RemoteCfg.tla models `wrgl remote add / rename / remove / set-branches` and "
+         "`wrgl config` over the ref model, and its transition cover and seeded traces run through the real CLI with config, whole ref "
+         "store, logs and fetch map compared after every command (bulk moves / deletes touch exactly one remote's refs).",
          "sqlite driver trusted; names from fixed alphabets; bounded depth (3 quick / 4 thorough) for the cover, length 80/150 for traces",
          "TLA+ spec Refs.tla; TLC transition cover replayed into pkg/ref/sql; TLC trace validation of recorded real executions",
          "DESIGN.md 5/C15"),
